@@ -14,6 +14,12 @@ import CpProofs.DnsSpec
 
   Where the code violates the full statement, the full statement stays as a `def …_full : Prop`, its
   negation is proved with a concrete witness, and the part that does hold is a `…_partial` theorem.
+  Three such statements remain, each pinned by a test of the repository: the key tag over RDATA of odd
+  length (`test_asdict`), the key tag of a received record whose RSA modulus has leading zero octets
+  or whose Flags field has reserved bits (`test_key_tag` parses such a modulus; the record type keeps
+  integers and known flags only), and the 57 octets of an Ed448 key (`test_parse_eddsa_key`).
+  Statements that were false of the code before its repair (`fix:` commits of the DNS record classes)
+  are theorems now; their former counterexamples are kept as regression `example`s.
 -/
 namespace Cp.C08
 open Cp Cp.Dns
@@ -21,7 +27,8 @@ open Cp Cp.Dns
 /-! ### key tag (RFC 4034 Appendix B) -/
 
 /-- The key tag of a record equals the RFC 4034 Appendix B value of the record's composed RDATA —
-for every record whose algorithm is not RSA/MD5.  FALSE of the code (odd-length RDATA). -/
+for every record whose algorithm is not RSA/MD5.  FALSE of the code (odd-length RDATA; the
+repository's `test_asdict` asserts a tag computed this way, 1540 for 391 octets of RDATA). -/
 def keyTag_conforms_full : Prop :=
   ∀ (k : Dnskey) (rd : Bytes), k.algCode ≠ algRsaMd5 → composeDnskey k = .ok rd →
     keyTag k = .ok (Spec.Dns.keyTag rd)
@@ -68,7 +75,9 @@ theorem keyTag_rsamd5 (k : Dnskey) (e m : Nat) (hk : DnskeyOk k) (h1 : k.algCode
 
 /-- The key tag of a RECEIVED record is the Appendix B value of the RDATA it was parsed from.  FALSE
 of the code even for RDATA of even length: the tag is computed over the re-composition, which drops
-reserved flag bits, leading zero octets and whatever follows a fixed-size key. -/
+reserved flag bits (RFC 4034 §2.1.1: to be ignored on receipt, so they cannot be refused) and the
+leading zero octets of an RSA exponent or modulus (the repository's `test_key_tag` parses a modulus
+with 124 of them).  Octets after a fixed-size key are no longer dropped: they are `TooMuchData`. -/
 def keyTag_received_full : Prop :=
   ∀ (rd : Bytes) (k : Dnskey) (n : Nat), parseDnskey rd = .ok (k, n) → k.algCode ≠ algRsaMd5 →
     rd.length % 2 = 0 → keyTag k = .ok (Spec.Dns.keyTag rd)
@@ -80,6 +89,11 @@ theorem keyTag_received_full_fails : ¬ keyTag_received_full := fun h =>
   absurd (h reservedFlagWitness ⟨[], 12, .eddsa 0 ((List.range 32).map UInt8.ofNat), 3⟩ 36 (by decide) (by decide)
     (by decide)) (by decide)
 
+/-- the other way to lose octets: an RSA/SHA-256 key whose modulus is written with a leading zero
+octet (RFC 3110 §2 prohibits it) is accepted as the key with the three-octet modulus -/
+example : parseDnskey [1, 0, 3, 8, 1, 3, 0, 1, 2, 3] = .ok (⟨[256], 7, .rsa 3 0x010203, 3⟩, 10) ∧
+    keyTag ⟨[256], 7, .rsa 3 0x010203, 3⟩ ≠ .ok (Spec.Dns.keyTag [1, 0, 3, 8, 1, 3, 0, 1, 2, 3]) := by decide
+
 /-- For conformant RDATA of even length that the library reproduces (`DnskeyOk`), the key tag of the
 parsed record is the Appendix B value of the received RDATA. -/
 theorem keyTag_received_even_partial (k : Dnskey) (hk : DnskeyOk k) (h1 : k.algCode ≠ algRsaMd5)
@@ -87,6 +101,29 @@ theorem keyTag_received_even_partial (k : Dnskey) (hk : DnskeyOk k) (h1 : k.algC
     ∃ k', parseDnskey (Spec.Dns.encodeDnskey k.toSpec) = .ok (k', (Spec.Dns.encodeDnskey k.toSpec).length) ∧
       keyTag k' = .ok (Spec.Dns.keyTag (Spec.Dns.encodeDnskey k.toSpec)) :=
   ⟨k, parseDnskey_spec hk, keyTag_conforms_even_partial k _ h1 (composeDnskey_eq_spec hk) hl⟩
+
+/-- Whenever the parsed record composes back to the RDATA it was read from (no reserved flag bits, no
+leading zero octets, the one-octet exponent length wherever it applies) the key tag is that of the
+received RDATA — for RDATA of even length. -/
+theorem keyTag_received_canonical_partial (rd : Bytes) (k : Dnskey) (n : Nat) (_hp : parseDnskey rd = .ok (k, n))
+    (hc : composeDnskey k = .ok rd) (h1 : k.algCode ≠ algRsaMd5) (hl : rd.length % 2 = 0) :
+    keyTag k = .ok (Spec.Dns.keyTag rd) := keyTag_conforms_even_partial k rd h1 hc hl
+
+/-- `key_tag` of a parsed record never raises: every accepted record composes (it used to raise
+whenever `compose()` did — no modulus octets, a modulus equal to a power of 256, a DSA prime with a
+leading zero octet). -/
+theorem keyTag_total_full (rd : Bytes) (k : Dnskey) (n : Nat) (hp : parseDnskey rd = .ok (k, n)) :
+    ∃ t, keyTag k = .ok t := by
+  obtain ⟨hk, _⟩ := parseDnskey_ok_inv hp
+  by_cases h1 : k.algCode = algRsaMd5
+  · have hkey := hk.key
+    rw [h1] at hkey
+    cases hkk : k.key with
+    | rsa e m => exact ⟨_, keyTag_rsamd5_eq h1 hkk⟩
+    | dsa p g q y => rw [hkk] at hkey; exact absurd hkey.1 (by decide)
+    | ec g x y => rw [hkk] at hkey; exact absurd hkey.1 (by simp [keyKindOfCode, algRsaMd5])
+    | eddsa c d => rw [hkk] at hkey; exact absurd hkey.1 (by simp [keyKindOfCode, algRsaMd5])
+  · exact ⟨_, keyTag_of_compose h1 (composeDnskey_eq_spec hk)⟩
 
 /-! ### DNSKEY RDATA (RFC 4034 §2.1) and public key formats -/
 
@@ -110,23 +147,66 @@ theorem dnskey_conforms (k : Dnskey) (hk : DnskeyOk k) :
 theorem dnskey_flag_values :
     Gen.DnsSecFlag.codes = [Spec.Dns.flagSecureEntryPoint, Spec.Dns.flagRevoke, Spec.Dns.flagZoneKey] := by decide
 
+/-- Only the documented parse errors escape `DnsRecordDnskey` (C02): whatever the input, the only
+"crash" the model can report is its own boundary marker (EC coordinates in the float zone of
+asn1crypto's point-size computation).  Algorithms without a signature key type (0 and 2), a zero
+coordinate and a wider coordinate equal to a power of 256 are `InvalidValue`. -/
+theorem dnskey_noCrash_full (bs : Bytes) (k : String) (h : parseDnskey bs = .error (.crash k)) :
+    k = "UNMODELLED" := parseDnskey_crash h
+
+/-- Whatever `DnsRecordDnskey._parse` accepts lies in the domain the library reproduces: flags that
+are members of `DnsSecFlag`, protocol 3, a key of the type the algorithm calls for — RSA with a
+non-zero exponent and modulus, DSA with a prime that fills the octets announced by T, EC coordinates
+asn1crypto can build a point from, EdDSA keys of the fixed size. -/
+theorem dnskey_parse_wf_full (bs : Bytes) (k : Dnskey) (n : Nat) (h : parseDnskey bs = .ok (k, n)) :
+    DnskeyOk k := (parseDnskey_ok_inv h).1
+
+/-- C05 for `DnsRecordDnskey`: every accepted record was read from ALL of its RDATA, composes — to
+the RFC 4034 §2.1 encoding of its fields — and that composition parses back to the same record with
+every octet consumed.  (It used to be false: no modulus octets, a zero-length exponent, a modulus
+equal to a power of 256 and a DSA prime with a leading zero octet were accepted and not composable.) -/
+theorem dnskey_recomposable_full (bs : Bytes) (k : Dnskey) (n : Nat) (h : parseDnskey bs = .ok (k, n)) :
+    n = bs.length ∧ composeDnskey k = .ok (Spec.Dns.encodeDnskey k.toSpec) ∧
+    parseDnskey (Spec.Dns.encodeDnskey k.toSpec) = .ok (k, (Spec.Dns.encodeDnskey k.toSpec).length) :=
+  ⟨(parseDnskey_ok_inv h).2, composeDnskey_eq_spec (parseDnskey_ok_inv h).1, parseDnskey_spec (parseDnskey_ok_inv h).1⟩
+
 /-- RFC 3110 §2: an RSA key composes to the exponent length (one octet for 1..255, otherwise zero and
-two octets), the exponent and the modulus, both as minimal big-endian octets; it parses back, and
-the specification's decoder recovers exactly those octets. -/
+two octets), the exponent and the modulus, both as minimal big-endian octets — whatever the modulus,
+powers of 256 included; it parses back, and the specification's decoder recovers exactly those
+octets. -/
 theorem rsa_key_conforms (e m : Nat) (h : RsaOk e m) :
     composeKeyRsa e m = .ok (Spec.Dns.encodeRsa e m) ∧
     parseKeyRsa (Spec.Dns.encodeRsa e m) = .ok (.rsa e m, (Spec.Dns.encodeRsa e m).length) ∧
     Spec.Dns.decodeRsaOctets (Spec.Dns.encodeRsa e m) = some (Spec.minBytesBE e, Spec.minBytesBE m) :=
-  ⟨composeKeyRsa_eq_spec h, parseKeyRsa_spec h.2.1 h.2.2.2.2, Spec.Dns.decodeRsa_encode e m h.2.1⟩
+  ⟨composeKeyRsa_eq_spec h, parseKeyRsa_spec h, Spec.Dns.decodeRsa_encode e m h.2.1⟩
 
-/-- Both exponent length forms are read, whatever the exponent and modulus octets are (the parser
-does not insist on the canonical form); every octet of the key field is consumed. -/
-theorem rsa_key_forms (n : Nat) (eb mb : Bytes) (hn : eb.length = n) (hr : floatRisk (Spec.fromBytesBE mb) = false) :
+/-- Both exponent length forms are read, whatever the exponent and modulus octets are as long as
+neither integer is zero (the parser does not insist on the canonical form); every octet of the key
+field is consumed. -/
+theorem rsa_key_forms (n : Nat) (eb mb : Bytes) (hn : eb.length = n) (he : Spec.fromBytesBE eb ≠ 0)
+    (hm : Spec.fromBytesBE mb ≠ 0) :
     (1 ≤ n → n ≤ 255 →
       parseKeyRsa (Spec.toBytesBE 1 n ++ (eb ++ mb)) = .ok (.rsa (Spec.fromBytesBE eb) (Spec.fromBytesBE mb), 1 + n + mb.length)) ∧
     (n < 256 ^ 2 →
       parseKeyRsa ([0] ++ (Spec.toBytesBE 2 n ++ (eb ++ mb))) = .ok (.rsa (Spec.fromBytesBE eb) (Spec.fromBytesBE mb), 3 + n + mb.length)) :=
-  ⟨fun h1 h2 => parseKeyRsa_short h1 h2 eb mb hn hr, fun h => parseKeyRsa_long h eb mb hn hr⟩
+  ⟨fun h1 h2 => parseKeyRsa_short h1 h2 eb mb hn he hm, fun h => parseKeyRsa_long h eb mb hn he hm⟩
+
+/-- An RSA key that is accepted has a non-zero exponent (of at most 65535 octets) and a non-zero
+modulus, and was read from all of the key field: an exponent or modulus of no octets, or of zero
+octets only, is an `InvalidValue`. -/
+theorem rsa_key_nonzero_full (kb : Bytes) (k : Key) (n : Nat) (h : parseKeyRsa kb = .ok (k, n)) :
+    ∃ e m, k = .rsa e m ∧ RsaOk e m ∧ n = kb.length := parseKeyRsa_ok_inv h
+
+/-- RFC 2536 §2: a DSA key whose prime has exactly `64 + 8 * T` octets composes to
+`T | Q | P | G | Y` and parses back with every octet consumed; and whatever the DSA key parser
+accepts is such a key. -/
+theorem dsa_key_conforms (p g q y : Nat) (h : DsaOk p g q y) :
+    composeKeyDsa p g q y = .ok (Spec.Dns.encodeDsa (dsaT p) q p g y) ∧
+    parseKeyDsa (Spec.Dns.encodeDsa (dsaT p) q p g y) = .ok (.dsa p g q y, (Spec.Dns.encodeDsa (dsaT p) q p g y).length) :=
+  ⟨composeKeyDsa_eq_spec h, parseKeyDsa_spec h⟩
+
+theorem dsa_key_wf_full (kb : Bytes) (k : Key) (n : Nat) (h : parseKeyDsa kb = .ok (k, n)) :
+    ∃ p g q y, k = .dsa p g q y ∧ DsaOk p g q y ∧ n = 1 + 20 + 3 * byteLen p := parseKeyDsa_ok_inv h
 
 /-- RFC 6605 §4: every pair of coordinates that fit the curve's width composes to `x | y`, each in
 exactly that width — leading zero octets included. -/
@@ -142,24 +222,29 @@ theorem ec_key_conforms (g x y : Nat) (h : EcOk (groupBytes g) x y) (s : Bytes) 
     Spec.Dns.decodeEcdsa (groupBytes g) (Spec.Dns.encodeEcdsa (groupBytes g) x y) = some (x, y) :=
   ⟨composeKeyEc_eq_spec h.1 h.2.1, parseKeyEc_spec h s, Spec.Dns.decodeEcdsa_encode h.1 h.2.1⟩
 
-/-- Non-zero coordinates that are not powers of 256 (away from the float zone of the key-size
+/-- Non-zero coordinates that are not powers of 256 (away from the float zone of the point-size
 computation) are accepted, with any number of leading zero octets.  A zero coordinate or a wider
-coordinate equal to a power of 256 makes asn1crypto raise (known findings `crash:DnsRecordDnskey:…`). -/
+coordinate equal to a power of 256 makes asn1crypto raise; `_parse_public_key_ecdsa` reports both as
+`InvalidValue` (`dnskey_noCrash_full`). -/
 theorem ec_key_constructible (n x y : Nat) (hx : x < 256 ^ n) (hy : y < 256 ^ n) (hx1 : 1 ≤ x) (hy1 : 1 ≤ y)
     (hrx : floatRisk x = false) (hry : floatRisk y = false) (hpx : ∀ k, x ≠ 256 ^ k) (hpy : ∀ k, y ≠ 256 ^ k) :
     EcOk n x y := ⟨hx, hy, ecWidth_of_not_pow hx1 hy1 hrx hry hpx hpy⟩
 
-/-- "No trailing key bytes dropped": the key parser reads all of the public key field, for every
-algorithm.  FALSE of the code for the fixed-size key types. -/
-def parseKey_consumes_all_full : Prop :=
-  ∀ (code : Nat) (kb : Bytes) (k : Key) (n : Nat), parseKeyN code kb = .ok (k, n) → n = kb.length
+/-- "No trailing key bytes dropped": what `parse_key` accepts was read from ALL of the public key
+field, for every algorithm (octets after a fixed-size key are `TooMuchData`; they used to be
+ignored). -/
+theorem parseKey_consumes_all_full (code : Nat) (kb : Bytes) (k : Key) (h : parseKey code kb = .ok k) :
+    parseKeyN code kb = .ok (k, kb.length) := (parseKey_ok_inv h).2
 
-/-- RFC 8080 §3: an Ed448 public key has 57 octets; 56 are read, the last one is dropped. -/
-theorem parseKey_consumes_all_full_fails : ¬ parseKey_consumes_all_full := fun h =>
-  absurd (h 16 ((List.range 57).map UInt8.ofNat) (.eddsa 1 ((List.range 56).map UInt8.ofNat)) 56 (by decide))
-    (by decide)
+/-- the former counterexample — 57 octets offered as an Ed448 key — is refused now; the key parser
+still reads 56 of them (see `eddsa_key_octets_full_fails`) -/
+example : parseKey 16 ((List.range 57).map UInt8.ofNat) = .error (.tooMuch 1) ∧
+    parseKeyN 16 ((List.range 57).map UInt8.ofNat) = .ok (.eddsa 1 ((List.range 56).map UInt8.ofNat), 56) := by decide
+example : parseDnskey ([1, 1, 3, 15] ++ (List.range 32).map UInt8.ofNat ++ [0xaa, 0xbb]) = .error (.tooMuch 2) := by decide
 
-/-- The key octets per EdDSA algorithm are those of RFC 8080 §3.  FALSE of the code for Ed448. -/
+/-- The key octets per EdDSA algorithm are those of RFC 8080 §3.  FALSE of the code for Ed448: 56
+octets are read (the repository's `test_parse_eddsa_key` parses and composes a 56-octet vector with
+`parse_exact_size`), so a conformant 57-octet key is refused (`TooMuchData(1)`). -/
 def eddsa_key_octets_full : Prop :=
   ∀ code c n, keyKindOfCode code = some (.eddsa c) → Spec.Dns.eddsaKeyOctets code = some n → curveBytes c = n
 
@@ -169,30 +254,22 @@ theorem eddsa_key_octets_full_fails : ¬ eddsa_key_octets_full := fun h =>
 theorem eddsa_key_octets_ed25519_partial : keyKindOfCode 15 = some (.eddsa 0) ∧
     Spec.Dns.eddsaKeyOctets 15 = some (curveBytes 0) := ⟨rfl, rfl⟩
 
-/-- RSA keys: every octet of the key field is read (the modulus is "everything that is left"). -/
-theorem parseKey_consumes_all_rsa_partial (code : Nat) (kb : Bytes) (k : Key) (n : Nat)
-    (hc : keyKindOfCode code = some .rsa) (h : parseKeyN code kb = .ok (k, n)) : n = kb.length := by
-  simp only [parseKeyN, hc] at h
-  exact parseKeyRsa_consumes_all h
-
-/-- Fixed-size key types: exactly the fixed size is read, so all is consumed precisely when the key
-field has that size; anything after it is ignored without an error. -/
+/-- Fixed-size key types: exactly the fixed size is read by the key parser itself. -/
 theorem parseKey_fixed_size (kb : Bytes) (k : Key) (n : Nat) :
     (∀ g, parseKeyEc g kb = .ok (k, n) → n = 2 * groupBytes g) ∧
     (∀ c, parseKeyEddsa c kb = .ok (k, n) → n = curveBytes c ∧ k = .eddsa c (kb.take (curveBytes c))) :=
-  ⟨fun _ h => parseKeyEc_consumed h, fun _ h => parseKeyEddsa_consumed h⟩
+  ⟨fun _ h => parseKeyEc_consumed h, fun _ h => ⟨(parseKeyEddsa_consumed h).1, (parseKeyEddsa_consumed h).2.1⟩⟩
 
 /-! ### uncompressed names (RFC 1035 §3.1) -/
 
-/-- A sequence of labels (1..63 ASCII octets each) composes to length-prefixed labels closed by the
-root's zero octet, parses back whatever follows, and — within the 255-octet limit — is what the
-specification's decoder reads. -/
-theorem name_conforms (labels : List Bytes) (h : ∀ l ∈ labels, LabelOk l) (s : Bytes) :
+/-- A sequence of labels (1..63 ASCII octets each, 255 octets in all with the length octets) composes
+to length-prefixed labels closed by the root's zero octet, parses back whatever follows, and is what
+the specification's decoder reads. -/
+theorem name_conforms (labels : List Bytes) (h : NameOk labels) (s : Bytes) :
     composeName labels = .ok (Spec.Dns.encodeName labels) ∧
     parseName (Spec.Dns.encodeName labels ++ s) = .ok (labels, (Spec.Dns.encodeName labels).length) ∧
-    ((Spec.Dns.encodeName labels).length ≤ 255 →
-      Spec.Dns.decodeName (Spec.Dns.encodeName labels ++ s) = some (labels, s)) :=
-  ⟨composeName_ok h, parseName_encode h s, fun hl => Spec.Dns.decodeName_encode (nameWf_of_labelOk h hl) s⟩
+    Spec.Dns.decodeName (Spec.Dns.encodeName labels ++ s) = some (labels, s) :=
+  ⟨composeName_ok h, parseName_encode h s, Spec.Dns.decodeName_encode (nameWf_of_labelOk h.1 h.2) s⟩
 
 /-- the encoded length is one octet per label, the labels, and the root octet -/
 theorem name_length (labels : List Bytes) :
@@ -204,23 +281,40 @@ theorem name_length (labels : List Bytes) :
       Spec.Dns.toBE_length, List.map_cons, List.sum_cons]
     omega
 
-/-- RFC 1035 §2.3.4: what is accepted or composed as a name has labels of at most 63 octets and at
-most 255 octets in all.  FALSE of the code: neither limit is enforced by the parser. -/
-def name_limits_full : Prop :=
-  ∀ (bs : Bytes) (labels : List Bytes) (n : Nat), parseName bs = .ok (labels, n) →
-    (∀ l ∈ labels, l.length ≤ 63) ∧ n ≤ 255
+/-- RFC 1035 §2.3.4: what is accepted as a name has labels of 1..63 octets and at most 255 octets in
+all — and is exactly what the specification's decoder reads from the same octets.  (It used to be
+false: neither limit was enforced by the parser.) -/
+theorem name_limits_full (bs : Bytes) (labels : List Bytes) (n : Nat) (h : parseName bs = .ok (labels, n)) :
+    (∀ l ∈ labels, 1 ≤ l.length ∧ l.length ≤ 63) ∧ n ≤ 255 ∧
+    Spec.Dns.decodeName bs = some (labels, bs.drop n) := by
+  obtain ⟨_, h2, h3, h4⟩ := parseName_ok_inv h
+  refine ⟨fun l hl => ⟨(h4.1 l hl).1, (h4.1 l hl).2.1⟩, h2, ?_⟩
+  have := Spec.Dns.decodeName_encode (nameWf_of_labelOk h4.1 h4.2) (bs.drop n)
+  rwa [← h3, List.take_append_drop] at this
 
-/-- a "label" announced by the length octet 0x40 — a value RFC 1035 §4.1.4 reserves — is accepted -/
-theorem name_limits_full_fails : ¬ name_limits_full := fun h =>
-  absurd ((h ([64] ++ List.replicate 64 0x61 ++ [0]) [List.replicate 64 0x61] 66 (by decide)).1
-    (List.replicate 64 0x61) (by simp)) (by decide)
+/-- … and what is composed as a name keeps the same limits. -/
+theorem name_compose_limits_full (labels : List Bytes) (b : Bytes) (h : composeName labels = .ok b) :
+    b = Spec.Dns.encodeName labels ∧ b.length ≤ 255 ∧ ∀ l ∈ labels, l.length ≤ 63 := composeName_ok_inv h
+
+/-- C05 for `DnsNameUncompressed`: a name that is accepted composes back to exactly the octets that
+were read (it used to raise `InvalidValue` for labels the `idna` codec refuses to encode). -/
+theorem name_recomposable_full (bs : Bytes) (labels : List Bytes) (n : Nat) (h : parseName bs = .ok (labels, n)) :
+    n ≤ bs.length ∧ composeName labels = .ok (bs.take n) := name_canonical bs labels n h
+
+/-- the former counterexamples are refused: a 64-octet "label" (length octet 0x40, which RFC 1035
+§4.1.4 reserves), a label holding dots, and a name of 256 octets -/
+example : parseName ([64] ++ List.replicate 64 0x61 ++ [0]) = .error .invalidValue := by decide
+example : parseName [4, 0x61, 0x2e, 0x2e, 0x62, 0] = .error .invalidValue := by decide
+example : parseName [3, 0x61, 0x2e, 0x62, 0] = .error .invalidValue ∧
+    composeName [[0x61, 0x2e, 0x62]] = .error .invalidValue := by decide
+example : parseName ([63] ++ List.replicate 63 0x61 ++ [0]) = .ok ([List.replicate 63 0x61], 65) := by decide
 
 /-! ### MX (RFC 1035 §3.3.9), DS (RFC 4034 §5.1) -/
 
 theorem mx_conforms (m : Mx) (h : MxOk m) (s : Bytes) :
     composeMx m = .ok (Spec.Dns.encodeMx m.toSpec) ∧
     parseMx (Spec.Dns.encodeMx m.toSpec ++ s) = .ok (m, (Spec.Dns.encodeMx m.toSpec).length) ∧
-    ((Spec.Dns.encodeName m.exchange).length ≤ 255 → Spec.Dns.decodeMx (Spec.Dns.encodeMx m.toSpec) = some m.toSpec) := by
+    Spec.Dns.decodeMx (Spec.Dns.encodeMx m.toSpec) = some m.toSpec := by
   obtain ⟨b, hb, hp⟩ := mx_roundTrip m h
   have hc := composeMx_eq_spec h
   have : b = Spec.Dns.encodeMx m.toSpec := by
@@ -228,7 +322,15 @@ theorem mx_conforms (m : Mx) (h : MxOk m) (s : Bytes) :
     rw [hb] at hc
     exact Except.ok.inj hc
   subst this
-  exact ⟨hc, hp s, fun hl => Spec.Dns.decodeMx_encode h.1 (nameWf_of_labelOk h.2 hl)⟩
+  exact ⟨hc, hp s, Spec.Dns.decodeMx_encode h.1 (nameWf_of_labelOk h.2.1 h.2.2)⟩
+
+/-- C05 for `DnsRecordMx` / `DnsRecordDs`: what is accepted composes back to exactly the octets that
+were read (for MX it used to raise `InvalidValue` on exchange names the composer refuses). -/
+theorem mx_recomposable_full (bs : Bytes) (m : Mx) (n : Nat) (h : parseMx bs = .ok (m, n)) :
+    n ≤ bs.length ∧ composeMx m = .ok (bs.take n) := mx_canonical bs m n h
+
+theorem ds_recomposable_full (bs : Bytes) (d : Ds) (n : Nat) (h : parseDs bs = .ok (d, n)) :
+    n = bs.length ∧ composeDs d = .ok bs := ds_canonicalExact bs d n h
 
 theorem ds_conforms (d : Ds) (h : DsOk d) :
     composeDs d = .ok (Spec.Dns.encodeDs d.toSpec) ∧
@@ -258,40 +360,24 @@ full 32-bit range. -/
 theorem rrsig_compose_conforms (r : Rrsig) (h : RrsigComposable r) :
     composeRrsig r = .ok (Spec.Dns.encodeRrsig r.toSpec) := composeRrsig_eq_spec h
 
-/-- Every RRSIG value whose fields fit their widths (instants: any 32-bit value) is read back from
-its RDATA.  FALSE of the code: RDATA of 19 to 23 octets is rejected (`HEADER_SIZE = 24`). -/
-def rrsig_roundtrip_full : Prop :=
-  ∀ r : Rrsig, RrsigComposable r →
-    parseRrsig (Spec.Dns.encodeRrsig r.toSpec) = .ok (r, (Spec.Dns.encodeRrsig r.toSpec).length)
-
-/-- a valid RRSIG (root signer, four signature octets): 23 octets, below the class's `HEADER_SIZE` -/
-def rrsigShortWitness : Rrsig := ⟨.known 0, 7, 0, 3600, 1600000000, 1500000000, 7, [], [1, 2, 3, 4]⟩
-
-theorem rrsig_roundtrip_full_fails : ¬ rrsig_roundtrip_full := fun h => by
-  have h1 := h rrsigShortWitness
-    ⟨by show (0 : Nat) < _; decide, by decide, by decide, by decide, by decide, by decide, by decide,
-      fun l hl => absurd hl (by simp [rrsigShortWitness])⟩
-  have h2 : parseRrsig (Spec.Dns.encodeRrsig rrsigShortWitness.toSpec) = .error (.notEnough 1) := by decide
-  rw [h2] at h1
-  exact absurd h1 (by decide)
-
-/-- With at least 24 octets of RDATA — and instants over the FULL 32-bit range, `ff ff ff ff`
-included: composed to the RFC layout, parsed back with every octet consumed, and read identically
-by the specification's decoder. -/
-theorem rrsig_conforms_partial (r : Rrsig) (h : RrsigOk r) :
+/-- Every RRSIG value whose fields fit their widths (instants: any 32-bit value, `ff ff ff ff`
+included; the signer's name within the limits of RFC 1035) composes to the RFC layout, is read back
+from it with every octet consumed, and is read identically by the specification's decoder — whatever
+the size of the signature.  (It used to be false: RDATA of 19 to 23 octets was rejected,
+`HEADER_SIZE` being 24 where the fixed part has 18 octets.) -/
+theorem rrsig_roundtrip_full (r : Rrsig) (h : RrsigComposable r) :
     composeRrsig r = .ok (Spec.Dns.encodeRrsig r.toSpec) ∧
     parseRrsig (Spec.Dns.encodeRrsig r.toSpec) = .ok (r, (Spec.Dns.encodeRrsig r.toSpec).length) ∧
-    ((Spec.Dns.encodeName r.signersName).length ≤ 255 →
-      Spec.Dns.decodeRrsig (Spec.Dns.encodeRrsig r.toSpec) = some r.toSpec) := by
+    Spec.Dns.decodeRrsig (Spec.Dns.encodeRrsig r.toSpec) = some r.toSpec := by
   obtain ⟨b, hb, hp⟩ := rrsig_roundTripExact r h
-  have hc := composeRrsig_eq_spec h.composable
+  have hc := composeRrsig_eq_spec h
   have : b = Spec.Dns.encodeRrsig r.toSpec := by
     simp only [composeRrsig] at hc
     rw [hb] at hc
     exact Except.ok.inj hc
   subst this
-  refine ⟨hc, hp, fun hl => ?_⟩
-  obtain ⟨h1, h2, h3, h4, h5, h6, h7, h8⟩ := h.composable
+  refine ⟨hc, hp, ?_⟩
+  obtain ⟨h1, h2, h3, h4, h5, h6, h7, h8⟩ := h
   have htc : typeCoveredCode r.typeCovered < 256 ^ 2 := by
     cases hr : r.typeCovered with
     | known i =>
@@ -309,7 +395,22 @@ theorem rrsig_conforms_partial (r : Rrsig) (h : RrsigOk r) :
     have hget : Gen.DnsSecAlgorithm.codes[r.algorithm]? = some (Gen.DnsSecAlgorithm.codes.getD r.algorithm 0) := by
       simp [List.getD, List.getElem?_eq_getElem h2]
     exact alg_tableOk.fits _ (List.mem_of_getElem? hget)
-  exact Spec.Dns.decodeRrsig_encode htc halg h3 h4 h5 h6 h7 (nameWf_of_labelOk h8 hl)
+  exact Spec.Dns.decodeRrsig_encode htc halg h3 h4 h5 h6 h7 (nameWf_of_labelOk h8.1 h8.2)
+
+/-- the former counterexample: a valid RRSIG (root signer, four signature octets) of 23 octets -/
+def rrsigShortWitness : Rrsig := ⟨.known 0, 7, 0, 3600, 1600000000, 1500000000, 7, [], [1, 2, 3, 4]⟩
+
+example : parseRrsig (Spec.Dns.encodeRrsig rrsigShortWitness.toSpec) = .ok (rrsigShortWitness, 23) := by decide
+-- the smallest RRSIG RDATA there is: 19 octets (root signer, no signature octets); 18 octets lack the name
+example : parseRrsig [0, 1, 8, 0, 0, 0, 14, 16, 0, 0, 0, 2, 0, 0, 0, 1, 0, 7, 0]
+    = .ok (⟨.known 0, 7, 0, 3600, 2, 1, 7, [], []⟩, 19) := by decide
+example : parseRrsig [0, 1, 8, 0, 0, 0, 14, 16, 0, 0, 0, 2, 0, 0, 0, 1, 0, 7] = .error (.notEnough 1) := by decide
+
+/-- C05 for `DnsRecordRrsig`: what is accepted was read from ALL of the RDATA and composes back to
+exactly that RDATA; its signer's name is within the limits of RFC 1035 §2.3.4. -/
+theorem rrsig_recomposable_full (bs : Bytes) (r : Rrsig) (n : Nat) (h : parseRrsig bs = .ok (r, n)) :
+    n = bs.length ∧ composeRrsig r = .ok bs ∧ NameOk r.signersName :=
+  ⟨(rrsig_canonicalExact bs r n h).1, (rrsig_canonicalExact bs r n h).2, parseRrsig_name_ok h⟩
 
 /-- Only the four documented parse errors escape `DnsRecordRrsig` (C02): whatever the input, the only
 "crash" the model can report is its own boundary marker for labels outside the ASCII fast path of
@@ -353,7 +454,7 @@ def exampleKsk : Dnskey := ⟨[1, 256], 7, .rsa 65537 0xc5a3b1f907, 3⟩
 example : DnskeyOk exampleKsk :=
   ⟨⟨[0, 8], by decide, rfl⟩, rfl, by decide,
     ⟨rfl, by decide, Nat.lt_of_lt_of_le (by decide : 65537 < 256 ^ 3) (Nat.pow_le_pow_right (by decide) (by decide)),
-      by decide, not_pow256_of_odd (by decide) (by decide), by decide⟩⟩
+      by decide⟩⟩
 example : composeDnskey exampleKsk = .ok [1, 1, 3, 8, 3, 1, 0, 1, 0xc5, 0xa3, 0xb1, 0xf9, 0x07] := by decide
 example : exampleKsk.algCode ≠ algRsaMd5 := by decide
 -- 13 octets (odd): the reported tag and the Appendix B tag differ
@@ -377,17 +478,17 @@ example : MxOk ⟨10, [[0x6d, 0x78], [0x65, 0x78, 0x61, 0x6d, 0x70, 0x6c, 0x65],
   ⟨by decide, by
     intro l hl
     simp only [List.mem_cons, List.not_mem_nil, or_false] at hl
-    rcases hl with rfl | rfl | rfl <;> exact ⟨by decide, by decide, by decide, by decide⟩⟩
+    rcases hl with rfl | rfl | rfl <;> exact ⟨by decide, by decide, by decide, by decide⟩, by decide⟩
 example : composeMx ⟨10, [[0x6d, 0x78], [0x63, 0x6f, 0x6d]]⟩ = .ok [0, 10, 2, 0x6d, 0x78, 3, 0x63, 0x6f, 0x6d, 0] := by decide
 example : DsOk ⟨60485, 4, 1, List.replicate 32 0xab⟩ := ⟨by decide, by decide, by decide⟩
 -- signature expiration 2^32 - 1 (2106-02-07 06:28:15 UTC), a private RR type
 example : RrsigOk ⟨.unknown 0xff00, 7, 2, 3600, 2 ^ 32 - 1, 0, 7, [[0x61]], List.replicate 64 1⟩ :=
-  ⟨⟨⟨by decide, by decide⟩, by decide, by decide, by decide, by decide, by decide, by decide,
+  ⟨⟨by decide, by decide⟩, by decide, by decide, by decide, by decide, by decide, by decide,
     by
       intro l hl
       simp only [List.mem_singleton] at hl
       subst hl
-      exact ⟨by decide, by decide, by decide, by decide⟩⟩,
+      exact ⟨by decide, by decide, by decide, by decide⟩,
     by decide⟩
 example : parseRrsig ([0, 1, 8, 2, 0, 0, 14, 16, 255, 255, 255, 255, 0, 0, 0, 0, 0, 7, 1, 0x61, 0] ++ [1, 2, 3, 4])
     = .ok (⟨.known 0, 7, 2, 3600, 2 ^ 32 - 1, 0, 7, [[0x61]], [1, 2, 3, 4]⟩, 25) := by decide
@@ -396,5 +497,25 @@ example : chunks 3 7 [1, 2, 3, 4, 5, 6, 7] = [[1, 2, 3], [4, 5, 6], [7]] := by d
 example : parseTxt [2, 0x61, 0x62, 1, 0x63] = .ok ([0x61, 0x62, 0x63], 5) := by decide
 example : Spec.Dns.TxtWf [[0x61, 0x62], [0x63]] := ⟨by simp, by decide⟩
 example : composeTxt [0x61, 0x62] = .ok [2, 0x61, 0x62] ∧ composeTxt [] = .ok [0] := by decide
+
+/-! ### regression: inputs that used to raise foreign exceptions or to be accepted and not composable -/
+
+-- algorithms without a signature key type (0 = DELETE, 2 = DH) used to raise AttributeError
+example : parseDnskey [1, 1, 3, 0, 0, 0, 0, 0] = .error .invalidValue ∧
+    parseDnskey [1, 1, 3, 2, 0, 0, 0, 0] = .error .invalidValue := by decide
+-- a zero coordinate used to raise ValueError, a wider coordinate equal to a power of 256 OverflowError
+example : ecWidth 0 5 = .error .invalidValue ∧ ecWidth 5 0 = .error .invalidValue ∧
+    ecWidth 256 1 = .error .invalidValue ∧ ecWidth 1 1 = .error .invalidValue ∧ ecWidth 256 257 = .ok 2 := by decide
+example : parseDnskey ([1, 1, 3, 13] ++ List.replicate 32 0 ++ List.replicate 32 1) = .error .invalidValue := by decide
+-- RSA: no modulus octets (compose raised ValueError), an exponent of no octets (the composition was
+-- mis-read), a modulus of zero octets only: refused
+example : parseDnskey [1, 1, 3, 8, 3, 1, 0, 1] = .error .invalidValue ∧
+    parseDnskey [1, 1, 3, 8, 0, 0, 0, 1, 2, 3] = .error .invalidValue ∧
+    parseDnskey [1, 1, 3, 8, 1, 3, 0, 0] = .error .invalidValue := by decide
+-- RSA: a modulus equal to a power of 256 (compose raised InvalidValue) is composed in its own size
+example : parseDnskey [1, 0, 3, 8, 1, 3, 1, 0, 0] = .ok (⟨[256], 7, .rsa 3 (256 ^ 2), 3⟩, 9) ∧
+    composeDnskey ⟨[256], 7, .rsa 3 (256 ^ 2), 3⟩ = .ok [1, 0, 3, 8, 1, 3, 1, 0, 0] ∧
+    keyTag ⟨[256], 7, .rsa 3 (256 ^ 2), 3⟩ = .ok 1547 := by decide
+example : RsaOk 3 (256 ^ 2) := ⟨by decide, Nat.lt_of_lt_of_le (by decide : 3 < 256 ^ 1) (Nat.pow_le_pow_right (by decide) (by decide)), by decide⟩
 
 end Cp.C08
